@@ -79,6 +79,17 @@ TwoResources ==
                               defs |-> [t |-> T(1), a |-> [id |-> IdOf(RelRef(<<"a.json">>)), defs |-> [t |-> T(2)],
                                                            allOf |-> <<[ref |-> LocalRef(FragPtr(<<SegN("defs", "t")>>))]>>]]]]>>],
     kw |-> "defs"]}
+\* a key whose LITERAL text spells the rest of a deeper pointer ("T/properties/x" next to T with a property x):
+\* a pointer is cut at EVERY "/", so "#/$defs/T/properties/x" is the property x of T, never the long key
+ShadowKey == <<"T", "/", "properties", "/", "x">>
+ShadowCases ==
+  {[u |-> Doc1(Stamp(kw, (kw :> (("T" :> [properties |-> [x |-> T(1)]]) @@ (Join(ShadowKey) :> T(2))))
+                          @@ PropR(LocalRef(FragPtr(<<SegN(kw, "T"), SegN("properties", "x")>>))))), kw |-> kw,
+    keys |-> (Join(ShadowKey) :> ShadowKey)]
+     : kw \in {"defs", "definitions", "dependentSchemas", "depSchemas"}}
+  \cup {[u |-> Doc1([properties |-> ("T" :> [properties |-> [x |-> T(1)]]) @@ (Join(ShadowKey) :> T(2))
+                                    @@ [r |-> [ref |-> LocalRef(FragPtr(<<SegN("properties", "T"), SegN("properties", "x")>>))]]]),
+          kw |-> "properties", keys |-> (Join(ShadowKey) :> ShadowKey)]}
 \* depth 2: a keyword under a keyed / indexed parent
 NestCases ==
   {[u |-> Doc1([defs |-> (k :> [properties |-> (k2 :> T(1)) @@ ("zz" :> T(2)), allOf |-> <<T(3)>>])]
@@ -90,7 +101,7 @@ NestCases ==
 \* ---- invalid pointers: raw fragment texts against a fixed document ----
 \* targets here only constrain numbers, so that the root object instance passes them
 TN(i) == [minimum |-> Mark[i], maximum |-> Mark[i]]
-BadDoc == [allOf |-> <<TN(1), TN(2)>>, defs |-> [a |-> TN(3)], items |-> TN(4), required |-> <<"r">>, type |-> "object",
+BadDoc == [allOf |-> <<TN(1), TN(2)>>, defs |-> [a |-> TN(3)] @@ ("a/" :> TN(6)), items |-> TN(4), required |-> <<"r">>, type |-> "object",
            minimum |-> R_0, title |-> "t"]
 BadPtrAtoms == {<<"/", "allOf", "/", "+", "1">>,
                <<"/", "allOf", "/", "-", "0">>,
@@ -126,6 +137,7 @@ BadPtrAtoms == {<<"/", "allOf", "/", "+", "1">>,
                <<"/", "/">>,
                <<"/">>,
                <<"/", "properties", "/", "p", "/", "~">>,
+               <<"/", "properties", "/", "p", "/", "x">>,          \* (a property is named "p/x": reached as p~1x only)
                <<"/", "defs", "/", "a">>,
                <<"/", "definitions", "/", "a">>,
                <<"/", "allOf", "/", "0", "/">>,
@@ -157,12 +169,13 @@ BadPtrAtoms == {<<"/", "allOf", "/", "+", "1">>,
                <<"/", "allOf", "/", "9", "9", "9", "9", "9", "9", "9", "9", "9", "9", "9", "9", "9", "9", "9", "9", "9", "9", "9", "9", "9", "9", "9", "9", "9", "9">>}
 BadPtrs == {Join(a) : a \in BadPtrAtoms}
 GoodRawAtoms == {<<<<"/", "allOf", "/", "0">>, 1>>, <<<<"/", "allOf", "/", "1">>, 2>>, <<<<"/", "$defs", "/", "a">>, 3>>, <<<<"/", "items">>, 4>>,
-                 <<<<"/", "properties", "/", "p">>, 5>>, <<<<>>, 0>>}
+                 <<<<"/", "properties", "/", "p">>, 5>>, <<<<>>, 0>>, <<<<"/", "properties", "/", "p", "~", "1", "x">>, 6>>,
+                 <<<<"/", "$defs", "/", "a", "~", "1">>, 6>>}
 GoodRaw == {<<Join(g[1]), g[2]>> : g \in GoodRawAtoms}
-BadCases == {[u |-> Doc1(BadDoc @@ [properties |-> [p |-> TN(5), r |-> [ref |-> Ref(EmptyURI, [k |-> "raw", s |-> Join(pa)])]]]), kw |-> "bad", raw |-> Join(pa), atoms |-> pa, want |-> 99] : pa \in BadPtrAtoms}
-            \cup {[u |-> Doc1(BadDoc @@ [properties |-> [p |-> TN(5), r |-> [ref |-> Ref(EmptyURI, [k |-> "raw", s |-> Join(g[1])])]]]), kw |-> "good", raw |-> Join(g[1]), atoms |-> g[1], want |-> g[2]] : g \in GoodRawAtoms}
+BadCases == {[u |-> Doc1(BadDoc @@ [properties |-> [p |-> TN(5), r |-> [ref |-> Ref(EmptyURI, [k |-> "raw", s |-> Join(pa)])]] @@ ("p/x" :> TN(6))]), kw |-> "bad", raw |-> Join(pa), atoms |-> pa, want |-> 99] : pa \in BadPtrAtoms}
+            \cup {[u |-> Doc1(BadDoc @@ [properties |-> [p |-> TN(5), r |-> [ref |-> Ref(EmptyURI, [k |-> "raw", s |-> Join(g[1])])]] @@ ("p/x" :> TN(6))]), kw |-> "good", raw |-> Join(g[1]), atoms |-> g[1], want |-> g[2]] : g \in GoodRawAtoms}
 
-Cases == CASE Family = "P1" -> SingleCases \cup SeqCases \cup MapCases \cup TwinCases \cup AnchorLikePointer \cup TwoResources \cup NestCases
+Cases == CASE Family = "P1" -> SingleCases \cup SeqCases \cup MapCases \cup TwinCases \cup ShadowCases \cup AnchorLikePointer \cup TwoResources \cup NestCases
            [] Family = "P2" -> BadCases
 
 Init == cs \in Cases /\ phase = "new"
